@@ -133,10 +133,64 @@ def extract(repo: Path) -> dict:
     #      working directory of the process?
     out["treeProcessorReadsRelative"] = _probe_tree_processor()
     out["findSkips"] = _probe_find_skips(xp, fp)
+    out["siblingDir"] = _probe_current_path()
     for (n, caught), (n2, ex) in zip(out["fetchErrors"], out["handlerExits"]):
         if n != n2 or caught != (ex != "uncaught"):
             raise LookupError(f"load_external_modules: {n} caught={caught} but handler exit {ex!r}")
     return out
+
+
+# --------------------------------------------------------------------------- probing MetaMarkdown.convert (round 6)
+
+def _probe_current_path() -> str:
+    """the directory `MetaMarkdown.convert(text, context)` makes `[[...]]` references relative to: observed at the
+    moment the link processor asks the project for the entity.  Must be `<output dir>/<Path(url).parent.parent>/<X>`
+    for one fixed name X (returned); anything else is a shape the model does not have."""
+    from ford._markdown import MetaMarkdown
+    seen = []
+
+    class P:
+        def find(self, *a, **k):
+            seen.append(md.current_path)
+            return None
+
+    class Ctx:
+        parent = None
+        name = "ctx"
+        filename = "ctx.f90"
+
+        def __init__(self, url):
+            self.url = url
+
+        def get_url(self):
+            return self.url
+
+        def find_child(self, *a, **k):
+            return None
+
+    base = Path("/probe/out")
+    md = MetaMarkdown(".", base_url=str(base), project=P())
+    want = {"module/m.html": (), "proc/p.html#variable-x": (), "a/b/c/d.html": ("a", "b"), "index.html": ()}
+    names = set()
+    import io
+    from contextlib import redirect_stdout, redirect_stderr
+    for url, pre in want.items():
+        seen.clear()
+        with redirect_stdout(io.StringIO()), redirect_stderr(io.StringIO()):
+            md.reset().convert("[[zz_probe]]", context=Ctx(url))
+        if not seen or seen[0] is None:
+            raise LookupError("MetaMarkdown.convert: no page directory while a reference is resolved")
+        try:
+            rel = Path(seen[0]).relative_to(base).parts
+        except ValueError:
+            raise LookupError(f"MetaMarkdown.convert: page directory {seen[0]} is not below the output directory")
+        if len(rel) != len(pre) + 1 or rel[:-1] != pre:
+            raise LookupError(f"MetaMarkdown.convert: page directory {rel} for the context URL {url!r} is not "
+                              "<Path(url).parent.parent>/<one fixed name>")
+        names.add(rel[-1])
+    if len(names) != 1 or "/" in next(iter(names)) or next(iter(names)) in ("", ".", ".."):
+        raise LookupError(f"MetaMarkdown.convert: the page directory ends in {sorted(names)}")
+    return names.pop()
 
 
 # --------------------------------------------------------------------------- probing Project.find (round 6)
@@ -716,6 +770,9 @@ def render(t: dict) -> str:
         "/-- `graphs.BaseNode.__init__`: the node's URL is used as it is when this holds, otherwise it is prefixed with",
         f"    `graph_data.parent_dir` ({t['nodeVerbatimSource']}) -/",
         f"def nodeVerbatim : NodeCond := {_lean_cond(t['nodeVerbatim'])}",
+        "/-- (round 6) `MetaMarkdown.convert`: a `[[...]]` reference in the text of an entity is made relative to",
+        "    `<output dir>/<Path(url).parent.parent>/<this name>` (probed on four context URLs) -/",
+        f"def siblingDir : Str := {_lean_str(t['siblingDir'])} /- {t['siblingDir']} -/",
         "/-- (round 6) the keys of ENTITIES whose objects `Project.find` passes over when it looks for a bare name although",
         "    their project list is searched (probed: one object per class on an otherwise empty project) -/",
         "def findSkips : List Str := [" + ", ".join(f"{_lean_str(k)} /- {k} -/" for k in t["findSkips"]) + "]",
